@@ -8,6 +8,7 @@ import (
 	"github.com/AdguardTeam/urlfilter"
 	"github.com/AdguardTeam/urlfilter/rules"
 
+	"verif/enum"
 	"verif/ev"
 )
 
@@ -30,6 +31,10 @@ var c15Rules = []string{
 	"example.org##.s1",
 	"~sub.example.org,example.org##.s4",
 	"www.google.*#@#.w1",
+	"sub.example.org,~example.org#@#.s1", // an exception that excludes its own permitted domain
+	"example.org,~example.org##.s5",      // a rule that excludes its own permitted domain
+	"a.sub.example.org##.s1",             // the same selector from a deeper domain
+	"example.com,~sub.example.org#@#.g1",
 }
 
 var c15Hosts = []string{"example.org", "sub.example.org", "a.sub.example.org", "example.com", "notexample.org", "other.net", "google.com", "www.google.co.uk", "x.google.agoogle.com"}
@@ -148,19 +153,30 @@ func init() {
 			return
 		}
 		n := len(c15Rules)
-		// quick: all subsets of the first 14 rules; thorough: all 2^16
-		limit := 1 << 14
+		// quick: every subset of at most 5 of the rules; thorough: all 2^n subsets
+		var order []int
 		if c.Thorough() {
-			limit = 1 << n
+			order = make([]int, 1<<n)
+			for i := range order {
+				order[i] = i
+			}
+		} else {
+			for size := 0; size <= 5; size++ {
+				enum.Combinations(n, size, func(sub []int) bool {
+					m := 0
+					for _, i := range sub {
+						m |= 1 << i
+					}
+					order = append(order, m)
+					return true
+				})
+			}
 		}
+		limit := len(order)
 		var mu sync.Mutex
 		var evals, nontrivial int64
 		exhaustive := true
 		// smallest subsets first, so that the first violation is the minimal one
-		order := make([]int, limit)
-		for i := range order {
-			order[i] = i
-		}
 		sort.SliceStable(order, func(a, b int) bool { return popcount(order[a]) < popcount(order[b]) })
 		firstViolationSize := -1
 		c.parallel(limit, func(i int) {
@@ -211,7 +227,7 @@ func init() {
 		c.Run.Set("subsets", int64(limit))
 		c.Run.Set("evaluations", evals)
 		c.Run.Set("distinct_nontrivial", nontrivial)
-		c.Run.Set("rule", fmt.Sprintf("every subset of %d element-hiding rules and exceptions (generic, negated, multi-domain, wildcard TLD, duplicate selectors) in two line orders x %d hostnames x all 8 flag triples, through CosmeticEngine.Match and Engine.GetCosmeticResult, against CosmeticRule.Match over all rules; non-trivial = some host has a non-empty expected result", map[bool]int{false: 14, true: n}[c.Thorough()], len(c15Hosts)))
+		c.Run.Set("rule", fmt.Sprintf("%s of %d element-hiding rules and exceptions (generic, negated, multi-domain, wildcard TLD, duplicate selectors, self-excluding domains) in two line orders x %d hostnames x all 8 flag triples, through CosmeticEngine.Match and Engine.GetCosmeticResult, against CosmeticRule.Match over all rules; non-trivial = some host has a non-empty expected result", map[bool]string{false: "every subset of at most 5", true: "every subset"}[c.Thorough()], n, len(c15Hosts)))
 		c.Run.Set("exhaustive", exhaustive)
 		c.Run.Assumption("result buckets are compared as sets of selectors")
 		c.Run.Assumption("CosmeticRule.Match is the definition of 'applies to the hostname' (its wildcard-TLD label boundary is checked under C04's domain helper)")
